@@ -52,6 +52,33 @@ func (s *State) VerifSnap() VerifSnapshot {
 	return snap
 }
 
+// VerifPageKey identifies the current page (pointer identity); nil when history is empty.
+func (s *State) VerifPageKey() any {
+	s.m.Lock()
+	defer s.m.Unlock()
+	if s.h.IsEmpty() {
+		return nil
+	}
+	return s.h.Current()
+}
+
+// VerifAnyLoading: some page the harness has seen as current still has a loader in flight.
+var verifPages = map[*Page]bool{}
+
+func (s *State) VerifAnyLoading() bool {
+	s.m.Lock()
+	defer s.m.Unlock()
+	if !s.h.IsEmpty() {
+		verifPages[s.h.Current()] = true
+	}
+	for p := range verifPages {
+		if p.loadingUp || p.loadingDown {
+			return true
+		}
+	}
+	return false
+}
+
 const (
 	VerifLoading = loading
 	VerifNormal  = normal
